@@ -379,8 +379,14 @@ func runMint(h mintHist) mintRes {
 			// the one known cause: an entry whose signature deserializes but does not verify ((false, nil)
 			// from Verify) was let through by verifySignatures
 			invalidAccepted := false
-			for j := range b.ids {
-				if b.res[j] == "ZsInvalid" {
+			lastVerdict := map[string]string{} // per id, the verdict of its last entry among those looked at
+			for j, id := range b.ids {
+				if j < n {
+					lastVerdict[id] = b.res[j]
+				}
+			}
+			for _, vd := range lastVerdict {
+				if vd == "ZsInvalid" {
 					invalidAccepted = true
 				}
 			}
